@@ -1,12 +1,14 @@
 #!/bin/sh
-# Confirm a seeded change delivered by a mutation sub-agent, in a scratch worktree of /repo HEAD:
+# (sequential use only) Confirm a seeded change delivered by a mutation sub-agent, in a scratch worktree of /repo HEAD:
 #   tools/confirm_seed.sh <out_dir> <demo_src> <demo_dest_in_repo> "<cargo test args of the demo>" "<cargo test args of existing tests>"
 # 1. patch applies; 2. demo FAILS with the change; 3. existing tests (the given targets) PASS with the
 # change; 4. demo PASSES without the change.  Writes <out_dir>/confirmed.txt.  The worktree is
 # removed at the end; the shared target dir /tmp/cf_target is kept between confirmations (remove
 # it when the batch is done).
 out="$1"; demo="$2"; dest="$3"; demo_args="$4"; exist_args="$5"
-wt=/tmp/cf_wt_$$
+# fixed path: stageleft names its staged macros after the checkout path, so the trybuild cache in
+# the shared target dir is only valid for one path; confirmations therefore run one at a time
+wt=/tmp/cf_wt
 export CARGO_NET_OFFLINE=true CARGO_TARGET_DIR=/tmp/cf_target RUST_BACKTRACE=0
 log="$out/confirmed.txt"
 : > "$log"
